@@ -55,24 +55,38 @@ static Case gen_c17() {
     Case c;
     c.entry = "SpVecGF2";
     int dc = pick(0, 99);
-    int d = dc < 12 ? pick(1, 3) : dc < 80 ? pick(1, 70) : dc < 93 ? pick(71, 600) : pick(601, 5000);
+    int d = dc < 12 ? pick(1, 3) : dc < 75 ? pick(1, 70) : dc < 90 ? pick(71, 600) : pick(601, 5000);
+    static const char *uts[] = {"size_t", "size_t", "unsigned", "int", "ushort", "uchar", "uchar"};
+    c.wtype = uts[pick(0, 6)];   // index type U of SpVecGF2<U>
+    // the whole range of a narrow index type is a legal dimension: the largest value of U is an ordinary coordinate
+    if (c.wtype == "uchar") d = coin(50) ? 256 : pick(1, 256);
+    if (c.wtype == "ushort" && coin(15)) d = 65536;
     c.extra.push_back("dim " + std::to_string(d));
-    static const char *uts[] = {"size_t", "size_t", "unsigned", "int", "ushort"};
-    c.wtype = uts[pick(0, 4)];   // index type U of SpVecGF2<U>
     int len = coin(10) ? pick(61, 300) : pick(1, 60);
-    bool big_sets = coin(20);
+    bool big_sets = coin(25);
+    bool top_heavy = coin(30);   // coordinates near the top of the dimension
+    auto coord = [&]() { return (std::size_t) ((top_heavy && coin(40)) ? d - 1 - pick(0, std::min(d - 1, 3)) : pick(0, d - 1)); };
     auto rset = [&]() {
         std::set<std::size_t> s;
-        int cap = big_sets ? std::min(d, 200) : std::min(d, 12);
-        int k = coin(30) ? pick(0, 2) : pick(0, cap);
-        for (int i = 0; i < k; i++) s.insert((std::size_t) pick(0, d - 1));
+        int shape = pick(0, 9);
+        if (big_sets && shape < 3) {            // a long run / arithmetic progression (hundreds of ones)
+            int step = pick(1, 3), cnt = pick(1, std::min(600, d)), lo = pick(0, d - 1);
+            for (int i = 0, x = lo; i < cnt && x < d; i++, x += step) s.insert((std::size_t) x);
+        } else if (shape < 5) {                 // a short run of adjacent coordinates
+            int lo = (int) coord(), cnt = pick(1, 4);
+            for (int i = 0; i < cnt && lo + i < d; i++) s.insert((std::size_t) (lo + i));
+        } else {
+            int cap = big_sets ? std::min(d, 200) : std::min(d, 12);
+            int k = coin(30) ? pick(0, 2) : pick(0, cap);
+            for (int i = 0; i < k; i++) s.insert(coord());
+        }
         return s;
     };
     for (int i = 0; i < len; i++) {
         int t = pick(0, 99);
         int a = pick(0, NREG - 1), b = pick(0, NREG - 1), e = pick(0, NREG - 1);
         std::string op;
-        if (t < 10) op = "unit " + std::to_string(a) + " " + std::to_string(pick(0, d - 1));
+        if (t < 10) op = "unit " + std::to_string(a) + " " + std::to_string(coord());
         else if (t < 25) op = "set " + std::to_string(a) + " " + set_str(rset());
         else if (t < 32) op = "copy " + std::to_string(a) + " " + std::to_string(b);
         else if (t < 38) op = "move " + std::to_string(a) + " " + std::to_string(b);
@@ -220,6 +234,7 @@ static Verdict check_c17(const Case &c) {
     if (c.wtype == "unsigned") return check_c17_t<unsigned>(c);
     if (c.wtype == "int") return check_c17_t<int>(c);
     if (c.wtype == "ushort") return check_c17_t<unsigned short>(c);
+    if (c.wtype == "uchar") return check_c17_t<unsigned char>(c);
     return check_c17_t<std::size_t>(c);
 }
 
@@ -340,11 +355,12 @@ static Case gen_c18() {
         c.extra.push_back("p " + p.str());
     } else {
         c.entry = "SpVecFP";
-        cpp_int p = coin(30) ? cpp_int(pick(2, 7)) : draw_mag(limp) + 2;
+        bool top = coin(25);   // modulus in the top of the range in which (p-1)^2 is representable; few coordinates, many products
+        cpp_int p = top ? limp - pick(0, 64) : (coin(30) ? cpp_int(pick(2, 7)) : draw_mag(limp) + 2);
         if (p > limp) p = limp;
         if (p < 2) p = 2;
         c.extra.push_back("p " + p.str());
-        int dim = pick(1, 24);
+        int dim = top ? pick(2, 6) : pick(1, 24);
         c.extra.push_back("dim " + std::to_string(dim));
         int len = pick(1, 40);
         // scalar bound: |a|*(p-1) representable for built-ins
@@ -358,6 +374,7 @@ static Case gen_c18() {
                 if (coin(40)) s = -s;
                 return s.str();
             };
+            if (top) t = (t < 15) ? 10 : (t < 40) ? 30 : (t < 70) ? 65 : (t < 78) ? 80 : 85;   // idx / add / mul / muleq / dot
             if (t < 25) op = "idx " + std::to_string(a) + " " + std::to_string(pick(0, dim - 1));
             else if (t < 50) op = "add " + std::to_string(a) + " " + std::to_string(b) + " " + std::to_string(e);
             else if (t < 62) op = "addeq " + std::to_string(a) + " " + std::to_string(b);
